@@ -290,6 +290,7 @@ class Ev:
 		self.mode = mode  # code | spec (contract/spec text: total, no exits)
 		self.old = old
 		self.prev = prev
+		self.rw = (mode == 'code')  # contract-declared rewrites of external calls apply to code, never to contract text
 		self.guards: list[Any] = guards or []
 
 	# ---------------------------------------------------------------- helpers
@@ -450,7 +451,7 @@ class Ev:
 	# ---------------------------------------------------------------- main dispatch
 	def eval(self, n: ast.expr) -> Val:
 		c = self.fn.contract
-		if c is not None and c.rewrites and self.mode == 'code' and isinstance(n, (ast.Subscript, ast.Attribute, ast.Compare, ast.BoolOp)):
+		if c is not None and c.rewrites and self.rw and isinstance(n, (ast.Subscript, ast.Attribute, ast.Compare, ast.BoolOp, ast.ListComp)):
 			txt = ast.unparse(n)
 			if txt in c.rewrites:
 				self.eng.used_rewrites.add(f'{self.fn.label}: {txt}  ~>  {c.rewrites[txt]}')
@@ -1182,6 +1183,7 @@ class Ev:
 				env = dict(self.st.env)
 				self.bind_target(g.target, item, env)
 				sub = Ev(self.eng, self.fn, State(env, self.st.pc), self.oracle, self.mode, self.old, list(self.guards))
+				sub.rw = self.rw
 				conds = [] if cond0 is None else [cond0]
 				skip = False
 				for c in g.ifs:
@@ -1220,6 +1222,7 @@ class Ev:
 			env[x] = Val(v.ty, c)
 		self.bind_target(g.target, Val(it.ty.elem, seqc[nn - 1]), env)
 		sub = Ev(self.eng, self.fn, State(env, []), self.oracle, 'spec', self.old)
+		sub.rw = self.rw
 		cond = z3.And(*[sub.truth(c) for c in g.ifs]) if g.ifs else None
 		v = sub.eval(elt)
 		lty = TList(v.ty)  # type: ignore[arg-type]
@@ -1229,7 +1232,19 @@ class Ev:
 		step = unit if cond is None else z3.If(cond, unit, z3.Empty(lty.sort()))
 		z3.RecAddDefinition(f, [seqc, nn] + cap_consts, z3.If(nn <= 0, z3.Empty(lty.sort()), z3.Concat(f(seqc, nn - 1, *cap_consts), step)))
 		self.eng.rec_funcs[fname] = f
-		return Val(lty, f(it.term, z3.Length(it.term), *[v.term for _, v in caps]))
+		res = f(it.term, z3.Length(it.term), *[v.term for _, v in caps])
+		if cond is None and self.mode == 'code' or (cond is None and self.rw):
+			# consequences of the recursive definition (provable by induction on n), made available to the solver:
+			# a map keeps the length and is element-wise the element expression
+			qi = z3.Const(fresh_name('ci'), z3.IntSort())
+			env2 = dict(self.st.env)
+			self.bind_target(g.target, Val(it.ty.elem, it.term[qi]), env2)
+			sub2 = Ev(self.eng, self.fn, State(env2, []), self.oracle, 'spec', self.old)
+			sub2.rw = self.rw
+			ve = sub2.eval(elt)
+			self.st.assume(z3.Length(res) == z3.Length(it.term))
+			self.st.assume(z3.ForAll([qi], z3.Implies(z3.And(0 <= qi, qi < z3.Length(it.term)), res[qi] == ve.term)))
+		return Val(lty, res)
 
 	def iter_values(self, n: ast.expr) -> Val:
 		"""The sequence of values a for/comprehension iterates over."""
